@@ -422,6 +422,39 @@ fn linear_units<'a>(civ: &'a Civil, lt: &'a crate::refmodel::lunar::LunTable) ->
     (24..24 * 10000).step_by(5).collect(),
     sym(&[1, 23, 24, 25, 1000]),
   ));
+  // the same two units addressed with an out-of-range index: from_index(year, index + a) must be the element a steps away
+  v.push((
+    Lin {
+      unit: "SolarTerm(raw index)",
+      lo: 0,
+      hi: 24 * 10000 + 23,
+      fmt: Box::new(|o| format!("{}#{}", o / 24, o % 24)),
+      step: Box::new(|o, a, b| {
+        let t = SolarTerm::from_index((o / 24) as isize, (o % 24 + a) as isize).next(b as isize);
+        Some(24 * t.get_year() as i64 + t.get_index() as i64)
+      }),
+    },
+    (24 * 2..24 * 9998).step_by(29).collect(),
+    sym(&[1, 23, 24, 25, 47, 1000]),
+  ));
+  v.push((
+    Lin {
+      unit: "SixtyCycleMonth(raw index)",
+      lo: -12,
+      hi: 12 * 9999 + 11,
+      fmt: Box::new(|o| format!("{}/{}", o.div_euclid(12), o.rem_euclid(12))),
+      step: Box::new(|o, a, b| {
+        let x = SixtyCycleMonth::from_index(o.div_euclid(12) as isize, (o.rem_euclid(12) + a) as isize).next(b as isize);
+        let ord = 12 * x.get_sixty_cycle_year().get_year() as i64 + x.get_index_in_year() as i64;
+        if x.get_sixty_cycle().get_name() != crate::refmodel::pillar::month_pillar(ord.div_euclid(12), ord.rem_euclid(12) as usize) {
+          return None;
+        }
+        Some(ord)
+      }),
+    },
+    (12 * 2..12 * 9998).step_by(13).collect(),
+    sym(&[1, 11, 12, 13, 25, 60]),
+  ));
   // fortunes: ordinal = index of the decade / yearly fortune of a fixed child limit
   for (bi, birth) in [(1989isize, 12usize, 31usize, 23usize, true), (2024, 3, 3, 12, false), (1583, 1, 1, 0, true)].into_iter().enumerate() {
     let mk_cl = move || tyme4rs::tyme::eightchar::ChildLimit::from_solar_time(SolarTime::from_ymd_hms(birth.0, birth.1, birth.2, birth.3, 7, 17), if birth.4 { tyme4rs::tyme::enums::Gender::MAN } else { tyme4rs::tyme::enums::Gender::WOMAN });
@@ -599,9 +632,95 @@ fn check_lin_scaled(ctx: &Ctx, l: &Lin, o: i64, alpha: &[i64], scale: i64, max: 
   }
 }
 
+/// weeks: w.next(a).next(b) starts 7 (a + b) days after w (group action on the first day); every week of the listed
+/// years (leap months included) x 7 week starts x step pairs
+fn check_weeks(ctx: &Ctx, civ: &Civil, lt: &crate::refmodel::lunar::LunTable) {
+  use tyme4rs::tyme::lunar::LunarWeek;
+  use tyme4rs::tyme::solar::SolarWeek;
+  let alpha = sym(&[1, 2, 5, 9]);
+  let ord_of = |s: &SolarDay| civ.ord(s.get_year() as i32, s.get_month() as u8, s.get_day() as u8).map(|o| o as i64);
+  let n = civ.len() as i64;
+  // lunar
+  let mut luns: Vec<usize> = Vec::new();
+  for y in [2isize, 30, 1437, 1582, 2020, 2023, 2025, 2305, 5552, 9990] {
+    for i in lt.year_start[y as usize] as usize..lt.year_start[y as usize + 1] as usize {
+      if lt.l[i].ok {
+        luns.push(i);
+      }
+    }
+  }
+  let done = par_chunks(ctx, 0, luns.len() * 7, 1, |x, y, loc| {
+    for u in x..y {
+      let l = lt.l[luns[u / 7]];
+      let start = u % 7;
+      let wc = guard(|| LunarMonth::from_ym(l.y as isize, l.m as isize).get_week_count(start)).unwrap_or(0);
+      for idx in 0..wc {
+        loc.states += 1;
+        let f = match guard(|| ord_of(&LunarWeek::from_ym(l.y as isize, l.m as isize, idx, start).get_first_day().get_solar_day())) {
+          Ok(Some(f)) => f,
+          _ => continue,
+        };
+        for &a in &alpha {
+          for &b in &alpha {
+            let (mid, t) = (f + 7 * a, f + 7 * (a + b));
+            if mid < 800 || t < 800 || mid > n - 800 || t > n - 800 {
+              continue;
+            }
+            loc.transitions += 1;
+            let r = guard(|| ord_of(&LunarWeek::from_ym(l.y as isize, l.m as isize, idx, start).next(a as isize).next(b as isize).get_first_day().get_solar_day()));
+            let key = format!("LunarWeek {} start={} idx={} a={:+} b={:+}", l.key(), start, idx, a, b);
+            match r {
+              Ok(Some(got)) if got == t => {}
+              other => ctx.violation("linear_step", key, format!("LunarWeek: next({}).next({}) first day is {:?} days from the start, model {}", a, b, other.map(|o| o.map(|g| g - f)), 7 * (a + b)), vec!["weeks".into()]),
+            }
+          }
+        }
+      }
+    }
+  });
+  ctx.subspace(&format!("linear unit LunarWeek: every week of {} lunations (10 lunar years incl. leap months) x 7 week starts x step pairs from {:?}", luns.len(), alpha), done, luns.len() as u64 * 7);
+  // solar
+  let mut months: Vec<(i32, u8)> = Vec::new();
+  for y in [2i32, 1582, 2024, 9998] {
+    for m in 1..=12u8 {
+      months.push((y, m));
+    }
+  }
+  let done = par_chunks(ctx, 0, months.len() * 7, 1, |x, y, loc| {
+    for u in x..y {
+      let (yy, mm) = months[u / 7];
+      let start = u % 7;
+      let wc = guard(|| SolarMonth::from_ym(yy as isize, mm as usize).get_week_count(start)).unwrap_or(0);
+      for idx in 0..wc {
+        loc.states += 1;
+        let f = match guard(|| ord_of(&SolarWeek::from_ym(yy as isize, mm as usize, idx, start).get_first_day())) {
+          Ok(Some(f)) => f,
+          _ => continue,
+        };
+        for &a in &alpha {
+          for &b in &alpha {
+            let (mid, t) = (f + 7 * a, f + 7 * (a + b));
+            if mid < 40 || t < 40 || mid > n - 40 || t > n - 40 {
+              continue;
+            }
+            loc.transitions += 1;
+            let r = guard(|| ord_of(&SolarWeek::from_ym(yy as isize, mm as usize, idx, start).next(a as isize).next(b as isize).get_first_day()));
+            let key = format!("SolarWeek {}-{:02} start={} idx={} a={:+} b={:+}", yy, mm, start, idx, a, b);
+            match r {
+              Ok(Some(got)) if got == t => {}
+              other => ctx.violation("linear_step", key, format!("SolarWeek: next({}).next({}) first day is {:?} days from the start, model {}", a, b, other.map(|o| o.map(|g| g - f)), 7 * (a + b)), vec!["weeks".into()]),
+            }
+          }
+        }
+      }
+    }
+  });
+  ctx.subspace(&format!("linear unit SolarWeek: every week of {} months (years 2, 1582, 2024, 9998) x 7 week starts x step pairs from {:?}", months.len(), alpha), done, months.len() as u64 * 7);
+}
+
 pub fn run(ctx: &Ctx) {
   let civ = Civil::build();
-  ctx.assume("cyclic types: published name arrays (pub static *_NAMES) are the index<->name reference; their contents are judged by C19. Linear units: ordinal models (2*year+half, 4*year+quarter, 12*year+month-1, civil day ordinal, instant ordinal, 12*year+month index for sexagenary months incl. year -1); lunar months, terms, weeks, festivals are stepped exhaustively in C03, C06, C14, C20");
+  ctx.assume("cyclic types: published name arrays (pub static *_NAMES) are the index<->name reference; their contents are judged by C19. Linear units: ordinal models (2*year+half, 4*year+quarter, 12*year+month-1, civil day ordinal, instant ordinal, 12*year+month index for sexagenary months incl. year -1); lunar months, terms, weeks, festivals are stepped exhaustively in C03, C06, C14, C20 (here: every week of 10 lunar years / 4 civil years)");
   let cs = cycles();
   let mut pool: Vec<String> = Vec::new();
   for c in &cs {
@@ -636,6 +755,7 @@ pub fn run(ctx: &Ctx) {
     });
     ctx.subspace(&format!("linear unit {}: {} values x step pairs from {:?}", l.unit, st.len(), alpha), done, st.len() as u64);
   }
+  check_weeks(ctx, &civ, &lt);
   if ctx.primary() {
     for c in cs.iter().take(3) {
       let r = guard(|| (c.step2)(1, -(c.names.len() as isize) - 1, 1000003));
@@ -663,6 +783,10 @@ pub fn replay(ctx: &Ctx, args: &[String]) {
       let c = cs.iter().find(|c| c.ty == args[1]).expect("type");
       println!("replay C11 cyclic type {} (size {})", c.ty, c.names.len());
       check_cycle(ctx, c, &pool, &mut l);
+    }
+    "weeks" => {
+      let lt = crate::refmodel::lunar::LunTable::build(ctx, 0, 9999);
+      check_weeks(ctx, &civ, &lt);
     }
     _ => {
       let lt = crate::refmodel::lunar::LunTable::build(ctx, 0, 9999);
